@@ -123,7 +123,7 @@ def process_chunk(job):
     """job = (kind, tag, payload).  Returns a summary dict with violations."""
     kind, tag, payload = job
     orc = RC.TimedOracle(ORACLE_EXE)
-    summ = {"n": 0, "skipped": 0, "model_inconclusive": 0, "spec_inconclusive": 0, "in_wf": 0,
+    summ = {"n": 0, "skipped": 0, "model_inconclusive": 0, "spec_inconclusive": 0, "in_wf": 0, "in_family": 0,
             "model_diff": 0, "spec_diff": 0, "violations": [], "hist": {}, "keys": [], "samples": [],
             "relocated": {}}
 
@@ -166,6 +166,8 @@ def process_chunk(job):
         summ["keys"].append((RC.case_key(case), nontrivial))
         if r["wf"]:
             summ["in_wf"] += 1
+            if RC.in_proved_family(case):
+                summ["in_family"] += 1
         # whole seconds, start's tzinfo, strictly increasing
         if impl["extra"]:
             summ["violations"].append(({"kind": "resolution/tzinfo", "input": case, "impl": impl,
@@ -286,7 +288,7 @@ def main():
         for k in range(0, len(lst), 400):
             jobs.append(("list", "exh-%s/%d" % (name, k), lst[k:k + 400]))
 
-    total = {"n": 0, "skipped": 0, "model_inconclusive": 0, "spec_inconclusive": 0, "in_wf": 0,
+    total = {"n": 0, "skipped": 0, "model_inconclusive": 0, "spec_inconclusive": 0, "in_wf": 0, "in_family": 0,
              "model_diff": 0, "spec_diff": 0, "oracle_restarts": 0}
     hist, keys, samples, relocated = {}, {}, [], {}
     if have_oracle:
@@ -331,6 +333,7 @@ def main():
                                   % (7 if quick else 28, "" if quick else "; WEEKLY and MONTHLY around the year end",
                                      " (subsampled in quick)" if quick else ""),
         "in_spec_domain": total["in_wf"],
+        "in_spec_domain_and_covered_by_a_loop_theorem": total["in_family"],
         "model_vs_impl_disagreements": total["model_diff"],
         "spec_vs_impl_disagreements_incl_known": total["spec_diff"],
         "skipped_scan_unbounded": total["skipped"],
@@ -364,10 +367,28 @@ def main():
                                                          "passes within year 9999",
                 "C01_rrule_iter_correct_yearly_all_fuel_partial": "same family without BYEASTER: every fuel incl. "
                                                                   "the MAXYEAR end",
-                "C01_rrule_iter_correct_coarse_partial": "SUMMARY, FREQ YEARLY..DAILY, equal fuel: spec_wf, BYWEEKNO "
-                    "in -53..53, no BYEASTER; BYSETPOS, COUNT, UNTIL, interval free; MONTHLY: any BYDAY; YEARLY: nth "
-                    "weekdays only without BYMONTH; WEEKLY/DAILY: plain BYDAY; WEEKLY: passes whose weeks end within "
-                    "9999-12-31 and (with BYSETPOS) first week not before 0001-01-01",
+                "C01_rrule_iter_correct_headline_partial": "HEADLINE (coarse_guard_all): FREQ YEARLY..DAILY, equal "
+                    "fuel: spec_wf, BYWEEKNO in -53..53, no BYEASTER; everything else free (numeric BYDAY prefixes "
+                    "under WEEKLY/DAILY are ignored by code and specification: C01_normalize_strip, "
+                    "C01_spec_iter_strip); WEEKLY: passes whose weeks end within 9999-12-31 and (with BYSETPOS) "
+                    "first week not before 0001-01-01",
+                "C01_rrule_strictly_increasing_headline_partial": "coarse_guard_all",
+                "C01_rrule_nodup_headline_partial": "coarse_guard_all",
+                "C01_rrule_total_headline_partial": "coarse_guard_all: constructor accepts, iteration raises nothing",
+                "C01_rrule_iter_correct_subdaily_stream_all_partial": "sfam_all: HOURLY/MINUTELY/SECONDLY, no "
+                    "BYSETPOS, no BYEASTER, BYWEEKNO in range: same stream",
+                "C01_rrule_iter_correct_coarse_partial": "the same with BYDAY without numeric prefix under WEEKLY/"
+                    "DAILY (coarse_guard), FREQ YEARLY..DAILY, equal fuel: spec_wf, BYWEEKNO "
+                    "in -53..53, no BYEASTER (not an RFC part); BYSETPOS, COUNT, UNTIL, interval free; YEARLY and "
+                    "MONTHLY: every BYDAY (plain, nth, with or without BYMONTH); WEEKLY/DAILY: BYDAY without numeric "
+                    "prefix (as the RFC requires); WEEKLY: passes whose weeks end within 9999-12-31 and (with "
+                    "BYSETPOS) first week not before 0001-01-01",
+                "C01_rrule_iter_correct_yearly_all_partial": "yfam_noe: every YEARLY rule of the domain without "
+                                                             "BYEASTER; every fuel",
+                "C01_rrule_strictly_increasing_partial": "coarse_guard (the guard of the summary theorem)",
+                "C01_rrule_nodup_partial": "coarse_guard",
+                "C01_rrule_no_exception_partial": "coarse_guard: the iteration raises no exception at all",
+                "C01_rrule_total_coarse_partial": "coarse_guard: constructor accepts, iteration raises nothing",
                 "C01_rrule_iter_correct_monthly_all_partial": "mfam_all: every MONTHLY rule of the domain without "
                                                               "BYEASTER; every fuel",
                 "C01_rrule_iter_correct_yearly_full_partial": "yfam_all: YEARLY without BYEASTER, plain BYDAY or nth "
@@ -383,16 +404,15 @@ def main():
                 "C01_subdaily_spec_prefix_of_iterate": "sfam: the converse (progress)"},
             "not_proved_correspondence_only": [
                 "rrule_iter_correct (model = spec for every rule in spec_wf): proved for the families above; NOT "
-                "proved: BYEASTER outside plain YEARLY rules without BYSETPOS, YEARLY with BYMONTH + nth weekdays, "
-                "BYDAY with nth values under WEEKLY/DAILY/sub-daily (the n is ignored by the code), BYSETPOS for "
-                "sub-daily FREQ, the cut-off last week of year 9999 (WEEKLY), BYWEEKNO members beyond +-53",
-                "day_filter_correct for YEARLY+BYMONTH rules with nth-weekday BYDAY (their masks are proved)",
-                "strictly increasing / no duplicates as a separate theorem (follows from equality with the "
-                "specification inside the proved families; checked on every yielded sequence otherwise)",
-                "no IndexError / only ValueError for the whole loop (proved per mask builder, for rebuild, and "
-                "implied by the loop theorems inside their families)"]},
+                "proved: BYEASTER outside plain YEARLY rules without BYSETPOS (dateutil extension, not RFC), "
+                "BYSETPOS for sub-daily FREQ, the cut-off last week of year 9999 (WEEKLY), BYWEEKNO members "
+                "beyond +-53 (not RFC)",
+                "strictly increasing / no duplicates outside coarse_guard and for sub-daily FREQ (checked on every "
+                "yielded sequence)",
+                "no IndexError / only ValueError outside coarse_guard (inside: C01_rrule_no_exception_partial; "
+                "otherwise proved per mask builder and for rebuild, observed exception classes are checked)"]},
         "refuted_theorems": [t for t in props["theorems"] if "refuted" in t],
-        "differential_only": ["BYEASTER outside YEARLY, BYSETPOS with sub-daily FREQ, YEARLY BYMONTH + nth weekdays",
+        "differential_only": ["BYEASTER outside YEARLY, BYSETPOS with sub-daily FREQ",
                               "WEEKLY + BYSETPOS whose first week begins before 0001-01-01 (positions would count "
                               "unrepresentable days): model vs implementation only",
                               "rules outside spec_wf (empty BY-lists, BYMONTHDAY 0, out-of-range time parts): "
